@@ -982,5 +982,20 @@ fn main() {
         child_main();
         return;
     }
+    if args.len() >= 2 && args[1] == "timing" {
+        // developer aid: cost of one execution per variant class (stdout should be /dev/null)
+        let env = Env::new();
+        let warm = DefaultVmModules::default();
+        let exe = env.executable(1, true, "free,kvins:0:k1:v1,mintnf:17").unwrap();
+        for (name, bits, cold) in [("warm-f0", 0u32, false), ("warm-f0", 0, false), ("cold-f0", 0, true), ("warm-f14", 14, false), ("warm-f1", 1, false), ("warm-f15", 15, false)] {
+            let t0 = std::time::Instant::now();
+            let db = env.db.clone();
+            let t1 = std::time::Instant::now();
+            let fresh = DefaultVmModules::default();
+            let d = run_one(&db, if cold { &fresh } else { &warm }, &flags_config(bits, 16), &exe);
+            eprintln!("{} clone={:?} run={:?} {}", name, t1 - t0, t1.elapsed(), d[0]);
+        }
+        return;
+    }
     main_with(&[("c01a", &IdAlloc), ("c01r", &Resolve), ("c01d", &Diff)]);
 }
